@@ -197,6 +197,15 @@ def _new_values(kind, vals):
     return bnp.as_encoded_array(list(vals))
 
 
+def _index_of(spec):
+    import numpy as np
+    if spec[0] == 'slice':
+        return slice(spec[1], spec[2], spec[3])
+    if spec[0] == 'mask':
+        return np.array(spec[1], dtype=bool)
+    return np.array(spec[1], dtype=int)
+
+
 def _run_mode(case, path, d, lazy):
     import numpy as np
     import bionumpy as bnp
@@ -246,6 +255,16 @@ def _run_mode(case, path, d, lazy):
                 o = {'v': 'ok'}
             elif k == 'tolist':
                 o = {'v': _rows_from_tolist(fields, t.tolist())}
+            elif k == 'sel':
+                regs[r] = regs[op[2]][_index_of(op[3])]
+                o = {'v': 'ok'}
+            elif k == 'wread':
+                # write the table, then decode the written file (eagerly, in both runs): its rows
+                out = os.path.join(d, 'wr_%d_%d%s' % (int(lazy), n, FORMATS[fmt]['suffix']))
+                with bnp.open(out, 'w', buffer_type=bt) as f:
+                    f.write(t)
+                back = bnp.open(out, buffer_type=bt, lazy=False).read()
+                o = {'v': _rows_from_tolist(fields, back.tolist())}
             elif k == 'write':
                 out = os.path.join(d, 'out_%d_%d%s' % (int(lazy), n, FORMATS[fmt]['suffix']))
                 with bnp.open(out, 'w', buffer_type=bt) as f:
@@ -373,6 +392,16 @@ def _sym_apply(fmt, regs, op):
             s.compk = set()
     elif k == 'tolist' and s.kind == 'lazy':
         s.compk |= set(range(nf)) - s.setk
+    elif k == 'sel':
+        new = regs[op[2]].copy()
+        sp = op[3]
+        if sp[0] == 'slice':
+            new.n = len(range(new.n)[slice(sp[1], sp[2], sp[3])])
+        elif sp[0] == 'mask':
+            new.n = sum(sp[1])
+        else:
+            new.n = len(sp[1])
+        regs[r] = new
     elif k == 'cat':
         src = [regs[j] for j in op[2]]
         new = _Sym(sum(x.n for x in src))
@@ -611,6 +640,39 @@ def generate(tier, seed):
         c['chunk'] = _chunk_choice(rng, c) if chunked else None
         c['prog'] = _gen_prog(rng, 'bam', nrec, rng.randint(1, 6), i % 2 == 0, chunked)
         cases.append(c)
+    # (h) BAM: field access (any subset, any order) before and after an UNMODIFIED write of the whole table, of a mask /
+    #     integer-list / slice / reversed selection and of chained selections; two selections of one parent written in
+    #     turn; the written file is re-read and decoded (replace-then-write stays out: the BAM writer refuses modified data)
+    for i in range(14 if tier == 'quick' else 70):
+        nrec = rng.choice([3, 4, 5, 5])
+        base = _gen_bam(rng, nrec)
+        nf = len(FORMATS['bam']['fields'])
+
+        def fields_some():
+            fs = list(range(nf))
+            rng.shuffle(fs)
+            return fs[:rng.randint(1, nf)]
+        perm = list(range(nrec))
+        rng.shuffle(perm)
+        sels = [['mask', [j % 2 == 0 for j in range(nrec)]], ['mask', [rng.random() < 0.6 for _ in range(nrec)]],
+                ['take', perm], ['take', [rng.randrange(nrec) for _ in range(rng.randint(1, nrec + 1))]],
+                ['slice', 1, None, None], ['slice', None, None, -1], ['slice', None, -1, 2]]
+        progs = [[['get', 0, f] for f in fields_some()] + [['wread', 0]] + [['get', 0, f] for f in fields_some()] + [['tolist', 0]]]
+        for sp in sels:
+            before, after = fields_some(), fields_some()
+            progs.append([['sel', 0, 0, sp]] + [['get', 0, f] for f in before] + [['wread', 0]] + [['get', 0, f] for f in after] + [['tolist', 0]])
+            progs.append([['get', 0, f] for f in before[:2]] + [['sel', 0, 0, sp], ['wread', 0]] + [['get', 0, f] for f in range(nf)] + [['wread', 0]])
+        s1, s2 = rng.sample(sels, 2)
+        f1, f2 = rng.randrange(nf), rng.randrange(nf)
+        progs.append([['sel', 0, 1, s1], ['get', 0, f1], ['wread', 0], ['get', 0, f2], ['sel', 0, 1, s2], ['wread', 0], ['get', 0, f1],
+                      ['get', 1, f2], ['wread', 1], ['get', 1, f1], ['tolist', 0]])
+        progs.append([['sel', 0, 0, s1], ['get', 0, f1], ['sel', 0, 0, ['slice', None, None, -1]], ['wread', 0], ['get', 0, f1], ['get', 0, f2],
+                      ['sel', 0, 0, ['slice', 0, 1, None]], ['wread', 0], ['tolist', 0]])
+        for prog in progs:
+            c = dict(base)
+            c['chunk'] = None if rng.random() < 0.85 else _chunk_choice(rng, base)
+            c['prog'] = prog
+            cases.append(c)
     # (f) gzip-compressed and CRLF inputs of the text formats (the reader's prepend mode / carriage-return handling)
     for i in range(120 if tier == 'quick' else 600):
         fmt = FMT_ORDER[i % len(FMT_ORDER)]
@@ -696,6 +758,13 @@ def _op(case, op):
         return '(ORep %d %d %s)' % (r, op[2], _vals(vs))
     if k == 'tolist':
         return '(OTolist %d)' % r
+    if k == 'sel':
+        sp = op[3]
+        ix = ('(ISlice %s %s %s)' % (_opt(sp[1]), _opt(sp[2]), cz(1 if sp[3] is None else sp[3])) if sp[0] == 'slice'
+              else '(IMask %s)' % clist([cbool(b) for b in sp[1]], 'bool') if sp[0] == 'mask' else '(ITake %s)' % zl(sp[1]))
+        return '(OSel %d %d %s)' % (r, op[2], ix)
+    if k == 'wread':
+        return '(OWriteRead %d)' % r
     return '(OWrite %d)' % r
 
 
@@ -710,7 +779,7 @@ def _obs(op, o):
         return '(XCol %s)' % _vals(v)
     if k == 'at':
         return '(XRow %s)' % _vals(v)
-    if k == 'tolist':
+    if k in ('tolist', 'wread'):
         return '(XRows %s)' % clist([_vals(r) for r in v], 'list value')
     if k == 'write':
         return '(XBytes %s)' % hx(bytes.fromhex(v))
@@ -742,7 +811,7 @@ def nontrivial(case, o):
     for op in case['prog']:
         if op[0] in ('get', 'rep', 'tolist'):
             seen = True
-        elif seen and op[0] in ('slice', 'mask', 'take', 'cat', 'write', 'at'):
+        elif seen and op[0] in ('slice', 'mask', 'take', 'cat', 'write', 'at', 'sel', 'wread'):
             return True
     return False
 
@@ -821,10 +890,13 @@ def _explain_steps(case, o):
     if case.get('chunk') is not None and fmt in NOCONCAT:
         regs[0].kind = regs[1].kind = 'eager'
     stale = [False, False]        # the lazy register missed a concatenate the eager one performed
+    ectx = [case.get('chunk') is None and fmt != 'bam'] * 2      # the EAGER register has the file's header context (a BAM table never)
     out = []
     for i, op in enumerate(case['prog']):
         k, r = op[0], op[1]
         a, b = L[i], E[i]
+        if k in ('slice', 'mask', 'take', 'sel', 'cat', 'rep') and 'e' not in b:
+            ectx[r] = False
         if k == 'cat':
             src = [regs[j] for j in op[2]]
             mixed = len({s.kind for s in src}) > 1
@@ -842,9 +914,12 @@ def _explain_steps(case, o):
             diff = False
         if diff and k != 'cat':
             why = None
-            if stale[r] and k in ('len', 'get', 'tolist', 'write', 'at') and 'v' in b:
+            if stale[r] and k in ('len', 'get', 'tolist', 'write', 'at', 'wread') and 'v' in b:
                 # the two registers hold different tables since the one-sided concatenate failure
                 why = 'C05-concat-lazy-with-materialised'
+            elif k in ('wread', 'write') and fmt == 'bam' and 'v' in a and b.get('e') == 'KeyError' and not ectx[r]:
+                # BamBuffer.make_header reads the header context, which a derived eager table has lost
+                why = 'C05-header-lost-on-derived-eager-table'
             elif k == 'at' and ragged and sorted([a.get('e', 'value'), b.get('e', 'value')]) == ['TypeError', 'value']:
                 why = 'C05-int-index-ragged-column'
             elif k == 'write' and 'v' in a and b.get('e') == 'KeyError' and fmt == 'vcf' and case.get('header'):
